@@ -64,8 +64,8 @@ func (g *GoFakeS3) routeBase(w http.ResponseWriter, r *http.Request) {
 		err = g.listBuckets(w, r)
 
 	} else {
-		http.NotFound(w, r)
-		return
+		// Only GET (ListBuckets) is defined on the service endpoint itself:
+		err = ErrMethodNotAllowed
 	}
 
 	if err != nil {
